@@ -403,7 +403,7 @@ def run_schemas(ck: Check, cases: List[Tuple[Dict[str, Any], str]]) -> Dict[str,
                         f"tie T1/T2: identifiers declared in the generated {tag} code of schema {origin} differ from "
                         f"the model (model idents missing at {v['ir_model_missing'][:6]}, unpredicted declared "
                         f"{extra}, file name ok={v['ir_file_model']})", json.dumps(c["files"])[:2000]))
-            prefix_documented = c.get("prefix_documented", True)
+            prefix_documented = v["ir_prefix_spec"]
             if prefix_documented and (v["ir_spec_bad"] or not v["ir_file_spec"]):
                 n_spec += 1
                 if n_spec > 12:
@@ -426,16 +426,23 @@ def run_schemas(ck: Check, cases: List[Tuple[Dict[str, Any], str]]) -> Dict[str,
             "comparisons_all_names_in_theorem_languages": n_inclass}
 
 
-def gen_schema_cases(ck: Check, n_main: int, n_known: int, n_odd: int) -> List[Tuple[Dict[str, Any], str]]:
+STREAMS_QUICK = (("main", 32), ("known", 8), ("odd-prefix", 4), ("prefix-shapes", 10), ("collide", 8))
+STREAMS_THOROUGH = (("main", 340), ("known", 60), ("odd-prefix", 30), ("prefix-shapes", 90), ("collide", 70))
+
+
+def gen_schema_cases(ck: Check, streams) -> List[Tuple[Dict[str, Any], str]]:
+    """Streams: main (all names in the theorems' languages), known (digit names), odd-prefix
+    (prefixes outside every class: model tie only), prefix-shapes (name prefixes sharing their
+    leading characters with a message that has nested definitions 2-3 deep), collide (2-3 imports
+    whose `as` names, proto names and file base names coincide pairwise)."""
     cases = []
     dist: Dict[str, int] = {}
-    for stream, n in (("main", n_main), ("known", n_known), ("odd-prefix", n_odd)):
+    for stream, n in streams:
         for i in range(n):
             rng = random.Random(f"C15:{ck.seed}:{stream}:{i}")
-            g = ng.SchemaGen(rng, known=(stream == "known"), odd_prefix=(stream == "odd-prefix"))
+            g = ng.SchemaGen(rng, stream=stream)
             s = g.schema()
             j = ng.to_json(s)
-            j["prefix_documented"] = stream != "odd-prefix"
             cases.append((j, f"{stream}#{i}"))
             for k, v in s.stats().items():
                 dist[k] = max(dist.get(k, 0), v) if k == "max_depth" else dist.get(k, 0) + v
@@ -483,7 +490,7 @@ def run(ck: Check) -> None:
     else:
         conv = run_converters(ck, 5 if ck.quick else 7, ck.n(2000, 30000), corpus_inputs)
         t2 = time.time()
-        cases += gen_schema_cases(ck, ck.n(40, 400), ck.n(8, 60), ck.n(8, 60))
+        cases += gen_schema_cases(ck, STREAMS_QUICK if ck.quick else STREAMS_THOROUGH)
         gen = run_schemas(ck, cases)
         ck.coverage["tie"]["timing_s"] = {"prove": round(t1 - t0, 1), "converters": round(t2 - t1, 1),
                                           "generated_code": round(time.time() - t2, 1)}
@@ -497,7 +504,10 @@ def run(ck: Check) -> None:
                    "is_upper_snake/sg_*), measured in Coq.  generated code: (schema, language/mode, output file) "
                    "comparisons of declared identifiers, schemas from tools/names_gen.py (nesting depth <= 3, "
                    "imports with/without alias, option c.name_prefix on ~60%% of protos; streams main / known "
-                   "(digit names) / odd-prefix)" % (5 if ck.quick else 7))
+                   "(digit names) / odd-prefix / prefix-shapes (prefixes sharing leading characters with a message "
+                   "that has nested definitions, in capitals / Capitalised / small letters, with and without the "
+                   "final _) / collide (2-3 imports whose as-names, proto names and file base names coincide "
+                   "pairwise))" % (5 if ck.quick else 7))
     cov["tie"] = {**cov.get("tie", {}), "converters": conv, "generated_code": gen, "corpus": n_corpus}
     cov["tie"]["T0"] = ("coq/gen/GenNames.v re-translated by tools/translate_names.py: 9 regex patterns -> character "
                         "classes, 3 case-style tables (18 entries), 30 literal templates/constants, 22 AST digests of "
